@@ -24,6 +24,7 @@ import SvgVerif.Model.Area
 import SvgVerif.Model.Tangent
 import SvgVerif.Model.BezierN
 import SvgVerif.Model.ArcBBox
+import SvgVerif.Model.ArcApprox
 /-! Correspondence driver: one operation per input line, one canonical result per
 output line.  Run as `lake env lean --run Driver.lean < ops.txt`.  The Python
 harness feeds the same operations to the real svgpathtools code and diffs. -/
@@ -712,6 +713,28 @@ def runArcBBox (args : List String) : String :=
     | none => "none"
   | _ => "bad-args"
 
+/-! C04 approximations: `arcapx cubic|quad curves sx sy ex ey cx cy rx ry rotation theta delta` with the stand-ins
+`radians x := x·(22/7)/180`, `cos`, `sin` as for `arcbbox`, `tan := sin/cos`, `sqrt := sqrtStandin` -/
+def apxFn : SvgVerif.Model.ArcApprox.Fn Rat :=
+  { radians := fun x => x * (22 / 7) / 180, cos := standinFn.cos, sin := standinFn.sin, tan := standinFn.tan,
+    sqrt := sqrtStandin }
+
+def runArcApx (args : List String) : String :=
+  let shP : Rat × Rat → String := fun p => s!"{showRat p.1} {showRat p.2}"
+  match args with
+  | kind :: n :: rest =>
+    match n.toNat?, parseRats? rest with
+    | some n, some [sx, sy, ex, ey, cx, cy, rx, ry, rot, th, de] =>
+      let d : SvgVerif.Model.ArcApprox.ArcData Rat := ⟨sx, sy, ex, ey, cx, cy, rx, ry, rot, th, de⟩
+      if kind == "cubic" then
+        " ; ".intercalate ((SvgVerif.Model.ArcApprox.asCubicCurves apxFn d n).map
+          fun (a, b, c, e) => s!"{shP a} {shP b} {shP c} {shP e}")
+      else
+        " ; ".intercalate ((SvgVerif.Model.ArcApprox.asQuadCurves apxFn d n).map
+          fun (a, b, c) => s!"{shP a} {shP b} {shP c}")
+    | _, _ => "bad-args"
+  | _ => "bad-args"
+
 /-! C19 general degree: `bezn <sub> args` -/
 open SvgVerif.Model.BezierN in
 def runBezN (args : List String) : String :=
@@ -917,6 +940,7 @@ def handle (cmd : String) (args : List String) : String :=
   | "flat" => runFlat args
   | "fromgroup" => runFromGroup args
   | "smooth" => runSmooth args
+  | "arcapx" => runArcApx args
   | "arcbbox" => runArcBBox args
   | "bezn" => runBezN args
   | "sjoint" => runSJoint args
